@@ -105,7 +105,14 @@ extern "C" void h_c21_announce(unsigned long nshards, unsigned long pre_cached) 
     g_manifest.expires_at = std::chrono::system_clock::time_point(std::chrono::nanoseconds((500 - 4 + static_cast<long long>(life)) * kNs));
     g_plan_updates = g_seed_notes = g_fetches_scheduled = g_broadcasts = 0;
     const int score_before = n->reputation_.score(peer_n(0));
+    // lock discipline (C36): session reader threads run handle_announce concurrently with each other
+    verif_watch(&n->manifest_cache_, sizeof n->manifest_cache_, "Node::manifest_cache_"); verif_watch(&n->dht_, sizeof n->dht_, "Node::dht_");
+    verif_watch(&n->peer_announce_history_, sizeof n->peer_announce_history_, "Node::peer_announce_history_"); verif_watch(&n->peer_announce_lockouts_, sizeof n->peer_announce_lockouts_, "Node::peer_announce_lockouts_");
+    verif_watch(&n->peer_announce_failure_history_, sizeof n->peer_announce_failure_history_, "Node::peer_announce_failure_history_"); verif_watch(&n->reputation_, sizeof n->reputation_, "Node::reputation_");
+    verif_lock_name(&n->scheduler_mutex_, "scheduler_mutex_");
+    verif_context("reader-thread");
     n->handle_announce(a, peer_n(0), version);
+    verif_context("");
     // what happened
     const auto cache_it = n->manifest_cache_.find(chunk_key);
     const bool cache_changed = pre_cached ? !(cache_it != n->manifest_cache_.end() && cache_it->second.nonce.bytes[0] == 0xEE) : cache_it != n->manifest_cache_.end();   // the pre-cached manifest is marked by its nonce
@@ -131,4 +138,19 @@ extern "C" void h_c21_announce(unsigned long nshards, unsigned long pre_cached) 
         if (cache_it != n->manifest_cache_.end()) verif_assert(cache_it->second.shards.size() == nshards, "C21: the manifest that is cached is the one the ANNOUNCE carried");
         verif_reach("admitted");
     } else verif_reach("refused");
+}
+// native confirmation for the lock-set job: two reader threads announce concurrently under ThreadSanitizer
+#include <thread>
+extern "C" void h_c36_tsan_announce(unsigned long) {
+    PartialNode pn; Node* n = pn.node();
+    n->config_.min_manifest_ttl = std::chrono::seconds(2); n->config_.max_manifest_ttl = std::chrono::seconds(40);
+    n->config_.announce_min_interval = std::chrono::seconds(0); n->config_.announce_burst_limit = 100000; n->config_.announce_burst_window = std::chrono::seconds(30);
+    verif_env::g_steady_ns = 9000 * kNs; verif_env::g_system_ns = 500 * kNs;
+    g_manifest = protocol::Manifest{}; g_manifest.chunk_id = chunk_n(0); g_manifest.threshold = 1; g_manifest.total_shares = 1;
+    { protocol::KeyShard s{}; s.index = 1; g_manifest.shards.push_back(s); }
+    g_manifest.expires_at = std::chrono::system_clock::time_point(std::chrono::nanoseconds((500 + 30) * kNs));
+    auto worker = [&](unsigned who) { for (int i = 0; i < 300; ++i) { protocol::AnnouncePayload a{}; a.chunk_id = chunk_n(0); a.peer_id = peer_n(who); a.manifest_uri = "eph://m"; a.ttl = std::chrono::seconds(10); a.endpoint = "10.1.2.3:4000"; n->handle_announce(a, peer_n(who), 4); } };
+    std::thread t1(worker, 0u), t2(worker, 1u);
+    t1.join(); t2.join();
+    std::printf("TSAN-RUN-DONE\n");
 }
